@@ -397,6 +397,40 @@ func c03Run(c *engine.Ctx) {
 		c.Sample(map[string]any{"program": ".[$a:$b]", "values": "-6..6 by 0.5, +-1e18, 2.25, -0.75", "representations": "int, float64, json.Number in 3 spellings, *big.Int", "inputs": len(ins)})
 	}
 
+	// (O3a') the same value object on both sides: a builtin that compares may not take "the same Go object" for "equal"
+	// (nan is not equal to itself, also inside containers); the two-object form of the same program is the oracle
+	c.Sub("aliased-operands")
+	if c.MineIdx(5) {
+		vals := []string{"nan", "[nan]", "{a: nan}", "[[nan]]", "[1, nan]", "[nan, 1]", "{a: [nan], b: 1}", "[null, [nan, {a: nan}]]", "[1, 2]", "{a: 1}", "[infinite]", "[-nan]", "[(-1 | sqrt)]", "[(infinite - infinite)]", "[nan, nan]", "\"s\"", "[]", "null"}
+		forms := []string{"[A, B] | unique | length", "[A] - [B] | length", "[A] | index([B])", "[A] | indices([B])", "A | IN(B)", "[A, B] | group_by(.) | length", "A == B", "A != B", "A < B", "A <= B", "A > B", "A >= B", "[A, B] | unique_by(.) | length",
+			"[A, B] | (.[0] == .[1])", "[A] | inside([B])", "[A] | contains([B])", "[A, B] | sort | (.[0] == .[1])", "[A, B, A] | unique | length", "[[A], [B]] | unique | length", "{a: A} == {a: B}", "[A, 1] | index(B)", "[A, B] | rindex(B)",
+			"[A] | any(. == B)", "[A, B] | min == B", "[A, B] | max_by(.) == A", "[A] | bsearch(B)", "[A, B] | index(A)", "A as $c | [$c, B] | unique | length", "[A, B] | (.[0] | tojson) == (.[1] | tojson)", "[A] | .[0] == B", "[A, B] | flatten | unique | length",
+			"[limit(3; repeat(A))] | unique | length", "[A, B] | map(. == A)", "[A, B] | index([A, B])", "[{k: A}, {k: B}] | group_by(.k) | length", "[{k: A}, {k: B}] | unique_by(.k) | length", "[A, B] | [splits(\"x\")?]", "([A, B] | sort) == ([B, A] | sort)"}
+		for _, v := range vals {
+			for _, f := range forms {
+				one := v + " as $x | " + strings.NewReplacer("A", "$x", "B", "$x").Replace(f)
+				two := v + " as $x | " + v + " as $y | " + strings.NewReplacer("A", "$x", "B", "$y").Replace(f)
+				c.Eval()
+				o1, o2 := RunText("try ("+one+") catch \"error\"", nil, DefaultBudget), RunText("try ("+two+") catch \"error\"", nil, DefaultBudget)
+				c.DistinctN(1)
+				if o1.String() != o2.String() {
+					c.Violation(one, "representation-dependent", map[string]any{"aliased": true, "one": one, "two": two, "why": fmt.Sprintf("with one object on both sides: %s; with two equal objects: %s", o1.String(), o2.String())})
+				}
+				// the input itself on both sides, against a copy given as a variable
+				in, _ := single(RunText(v, nil, DefaultBudget))
+				code, err := compileVars("try ("+strings.NewReplacer("A", ".", "B", "$a").Replace(f)+") catch \"error\"", "$a", "$b", "$c")
+				if err == nil {
+					c.Eval()
+					same, other := RunCode(code, in, DefaultBudget, in, nil, nil), RunCode(code, in, DefaultBudget, univ.Copy(in), nil, nil)
+					if same.String() != other.String() {
+						c.Violation(one+" (input)", "representation-dependent", map[string]any{"aliased": true, "one": one, "two": two, "why": fmt.Sprintf("with the input object itself as $a: %s; with a copy: %s", same.String(), other.String())})
+					}
+				}
+			}
+		}
+		c.Sample(map[string]any{"one": "[nan] as $x | [$x, $x] | unique | length", "two": "[nan] as $x | [nan] as $y | [$x, $y] | unique | length", "values": len(vals), "forms": len(forms)})
+	}
+
 	// (O3b) every jq-defined builtin behaves as its published definition interpreted by refjq
 	c.Sub("jq-defined")
 	defs := gojq.VerifBuiltinFuncDefs()
@@ -672,6 +706,12 @@ func c03Replay(v *engine.Violation) (bool, string) {
 		return msg != "", msg
 	case "jq-defined":
 		return c01Replay(v)
+	case "aliased-operands":
+		o1, o2 := RunText("try ("+d["one"].(string)+") catch \"error\"", nil, DefaultBudget), RunText("try ("+d["two"].(string)+") catch \"error\"", nil, DefaultBudget)
+		if o1.String() != o2.String() {
+			return true, fmt.Sprint(d["why"])
+		}
+		return strings.Contains(fmt.Sprint(d["why"]), "input object itself"), fmt.Sprint(d["why"])
 	}
 	name, _ := d["name"].(string)
 	arity := int(d["arity"].(float64))
